@@ -189,7 +189,7 @@ type modelViolation struct {
 	Model   bool            `json:"model_tier"` // marks the witness as a schedule of the model tier (replayed by harness/c30m)
 }
 
-func runModel(args ...string) *modelOut {
+func runModelOnce(args ...string) *modelOut {
 	bin := os.Getenv("VERIF_AUX_C30M")
 	if bin == "" {
 		lib.Fatal("VERIF_AUX_C30M not set (the driver builds the model tier)")
@@ -203,6 +203,45 @@ func runModel(args ...string) *modelOut {
 		lib.Fatal("model tier failed: %v\n%s", err, b)
 	}
 	return &m
+}
+
+// runModel runs the model tier as n shard processes and merges what they report.
+func runModel(n int, args ...string) *modelOut {
+	if n <= 1 {
+		return runModelOnce(args...)
+	}
+	outs := make([]*modelOut, n)
+	var wg sync.WaitGroup
+	for k := 0; k < n; k++ {
+		wg.Add(1)
+		go func(k int) {
+			defer wg.Done()
+			outs[k] = runModelOnce(append(append([]string{}, args...), "--shard", fmt.Sprintf("%d/%d", k, n))...)
+		}(k)
+	}
+	wg.Wait()
+	m := &modelOut{Outcomes: map[string][]string{}, Statuses: map[string]int{}}
+	for _, o := range outs {
+		m.Cases += o.Cases
+		m.Executions += o.Executions
+		m.Pruned += o.Pruned
+		m.States += o.States
+		m.Transitions += o.Transitions
+		m.Incomplete += o.Incomplete
+		m.Bound, m.PairBound = o.Bound, o.PairBound
+		if o.MaxPoints > m.MaxPoints {
+			m.MaxPoints = o.MaxPoints
+		}
+		for k, v := range o.Outcomes {
+			m.Outcomes[k] = v
+		}
+		for k, v := range o.Statuses {
+			m.Statuses[k] += v
+		}
+		m.Violations = append(m.Violations, o.Violations...)
+	}
+	sort.SliceStable(m.Violations, func(i, j int) bool { return m.Violations[i].Class < m.Violations[j].Class })
+	return m
 }
 
 func main() {
@@ -220,7 +259,7 @@ func main() {
 			b, _ := json.Marshal(w)
 			os.WriteFile(tmp, b, 0o644)
 			defer os.Remove(tmp)
-			m := runModel("--replay", tmp)
+			m := runModel(1, "--replay", tmp)
 			for _, v := range m.Violations {
 				v.Model = true
 				r.Violate(v.Class, v, v.Detail)
@@ -240,9 +279,9 @@ func main() {
 	if r.Replay == "" {
 		bound := "3"
 		if !r.Quick() {
-			bound = "5"
+			bound = "4"
 		}
-		m = runModel("--tier", tier, "--budget", budget, "--bound", bound, "--continue", strings.Join(r.KnownClasses(), ","))
+		m = runModel(12, "--tier", tier, "--budget", budget, "--bound", bound, "--continue", strings.Join(r.KnownClasses(), ","))
 		for _, v := range m.Violations {
 			v.Model = true
 			r.Violate(v.Class, v, "[model tier] "+v.Detail)
